@@ -167,6 +167,19 @@ def _check_integrand(rep, prog, fn, qn, did, var):
         e = sp.expand(sp.sympify(ev.ev(n["c"][1])))
     except S.Decline as ex:
         raise AnalysisBroken("%s: %s" % (prog.loc(fn, n), ex))
+    # the sum ranges over every slot of face_lst_ (free slots are skipped by is_used(), they are not packed at the end of the list)
+    fi_ = prog.index(fn)
+    if _whole_face_list(fn, fi_, n):
+        rep.ok("C12.volume-integrand", prog, fn, n, "%s is summed over every slot of face_lst_" % var)
+    else:
+        from ..model import expand_text as _et
+        loop_ = fi_.enclosing(n, ("ForStmt", "WhileStmt"))
+        bound = _et(fn, loop_.get("cond") or {}) if loop_ is not None else ""
+        if "get_nb_of_faces" in bound or "free_face_queue_" in bound:
+            rep.violation("C12.volume-integrand", prog, fn, n, "%s: face loop bounded by the number of used faces" % var,
+                          "%s sums over the first get_nb_of_faces() slots of face_lst_ (%s): the used faces are not packed at the front of the list - after an edge merge the free slots lie in the middle - so the faces stored behind that position are left out and the sum runs over an open surface (volume, pressure and the orientation test become wrong and position dependent) until the next rebase()" % (qn, bound[:80]))
+        else:
+            rep.note("%s: the loop that accumulates %s is not in a form whose range this checker reads; 'every face slot is visited' is not decided for it" % (qn, var))
     faces = {m.group(1) for s_ in e.free_symbols for m in [re.match(r"^this\.node_lst_\[(.*)\.n[123]_id_\]\.pos_\.d[xyz]_$", s_.name)] if m}
     if len(faces) != 1:
         rep.violation("C12.volume-integrand", prog, fn, n, "%s: integrand mixes nodes of %d faces" % (var, len(faces)), "%s accumulates a term that is not built from the three nodes of one face" % qn)
